@@ -191,7 +191,7 @@ def pi_oracle(spec, X, y, S, min_gap=1e-6):
     nxt = w[k] if k < len(w) else 0.0
     gap = (w[k - 1] - nxt) / max(abs(w[0]), 1e-300)
     pi = (U[:, :k] ** 2).sum(axis=1)
-    return pi, bool(gap >= 1e-6 and w[0] > 0)
+    return pi, bool(gap >= min_gap and w[0] > 0)
 
 
 def residual_energy(spec, X, S):
